@@ -913,7 +913,10 @@ static cfg_value_t *cfg_setopt_slot(cfg_t *cfg, cfg_opt_t *opt, const char *valu
 			opt->flags &= ~CFGF_RESET;
 		}
 
-		if (opt->nvalues == 0 || is_set(CFGF_MULTI, opt->flags) || is_set(CFGF_LIST, opt->flags)) {
+		/* CFGF_LIST means nothing for a section: without CFGF_MULTI
+		 * there is one instance, and it is re-entered */
+		if (opt->nvalues == 0 || is_set(CFGF_MULTI, opt->flags) ||
+		    (is_set(CFGF_LIST, opt->flags) && opt->type != CFGT_SEC)) {
 			val = NULL;
 
 			if (opt->type == CFGT_SEC && is_set(CFGF_TITLE, opt->flags)) {
